@@ -7,7 +7,7 @@
    fx_sd = fixes/F14.patch (in the tree), fx_close = the F15 repair that the test-suite rejects
    (NOT in the tree: C03_refuted_close_then_more is a known finding). *)
 Require Import AV.Lib.Base AV.H1.ConnRec AV.H1.ConnState AV.H1.ConnSpec AV.H1.ConnProofs.
-Require Import AV.H1.ConnGraceful AV.H1.ConnSeal AV.H1.ConnCtx AV.H1.ConnLocal.
+Require Import AV.H1.ConnGraceful AV.H1.ConnSeal AV.H1.ConnCtx AV.H1.ConnLocal AV.H1.ConnKeepAlive AV.H1.ConnQuiet.
 
 (* every invariant of the event steps is an invariant of whole polls *)
 Theorem C03_poll_is_event_sequence : forall (c : cfg) (P : st -> Prop),
@@ -32,6 +32,45 @@ Theorem C03_refuted_close_then_more :
   trace (f15_run (mkFixes true false true)) =
     [TDecode f15_req0; TStart f15_req0; THead (Some f15_req0) 200 true false CClose; TComplete;
      TDecode f15_req1; TStart f15_req1; THead (Some f15_req1) 200 true false CKeepAlive; TComplete; TKeepAlive].
+Proof. vm_compute. repeat split; reflexivity. Qed.
+
+(* POSITIVE THEOREM OUTSIDE THE F15 CLASS, for the tree as it is (fixes/F12.patch + fixes/F14.patch in,
+   F15 repair not in), no graceful-shutdown signal configured (C06_graceful covers the signal).
+   The class is a predicate on the INPUT only: [Known_F15 c hs es] says that the concatenation of
+   everything that ever arrives ([arrivals es]) is not [calm]: some request that is followed by
+   further request material is not [good] -- its own context is not keep-alive (Connection: close,
+   HTTP/1.0 without keep-alive, keep-alive disabled), or it has a body, or its handler script may
+   force close. (Coarser than the harness's class in one respect: a body-bearing request that is
+   followed by more is always inside; see notes/C03.md.)
+   Outside the class, for ALL handler scripts and ALL event sequences -- hence all polls, timings,
+   segmentations, blocked peers, EOF/reset -- nothing active follows the first closing response. *)
+Theorem C03_silent_after_close_outside_F15 : forall c hs es,
+  fx c = tree_fixes -> has_signal c = false -> ~ Known_F15 c hs es ->
+  quiet_after_close (trace (run_events c es (init c hs))) = true.
+Proof. intros c hs es T N K. apply quiet_outside_F15; assumption. Qed.
+
+Theorem C03_silent_after_close_outside_F15_polls : forall c hs rs,
+  fx c = tree_fixes -> has_signal c = false -> calm c (number 0 hs) (poll_arrivals rs) = true ->
+  quiet_after_close (trace (run_polls c rs (init c hs))) = true.
+Proof. intros c hs rs T N K. apply quiet_polls_outside_F15; assumption. Qed.
+
+(* the class is decidable and the theorem is not vacuous: three pipelined requests, the last one with
+   Connection: close and a body, a malformed head in a second run *)
+Example C03_outside_F15_example :
+  let c := mkCfg (KaTimeout 5000) 0 1000 true false tree_fixes in
+  let r0 := mkReq 0 false true ONone RBNone in
+  let r1 := mkReq 1 true false OKeepAlive RBNone in
+  let r2 := mkReq 2 false true OClose RBLen in
+  let hs := [[HPend; HRespond ONone 3 1]; [HFail 403 4 0]; [HRead; HRespond OKeepAlive 0 0]] in
+  let rs := [mkRound 0 [IReq r0; IReq r1; IPart] RPending false false false;
+             mkRound 7 [IReq r2; IData 3] RPending true false false;
+             mkRound 7 [IData 2; IEnd] REof false false false] in
+  calm c (number 0 hs) (poll_arrivals rs) = true /\
+  count_heads 200 (trace (run_polls c rs (init c hs))) = 2%nat /\
+  count_heads 403 (trace (run_polls c rs (init c hs))) = 1%nat /\
+  quiet_after_close (trace (run_polls c rs (init c hs))) = true /\
+  (* and the F15 witness is inside the class *)
+  calm (f15_case_cfg tree_fixes) (number 0 [[HRespond ONone 0 0]; [HRespond ONone 0 0]]) [IReq f15_req0; IReq f15_req1] = false.
 Proof. vm_compute. repeat split; reflexivity. Qed.
 
 (* What holds of the code as it is: a SEALED state (closing response complete, nothing queued, read
